@@ -28,8 +28,11 @@ def main():
             vincdir=L.Rec(gd.vincdir, 'VINCDIR', 3, L.flat_generic(('lat1', 'lon1', 'azimuth1to2', 'ell_dist', 'ellipsoid'))),
             line_sf=L.Rec(gd.line_sf, 'LINESF', 1, L.flat_generic(('zone1', 'east1', 'north1', 'zone2', 'east2', 'north2', 'hemisphere', 'ellipsoid', 'projection'))))
 
-    def ob(name, fn, tag, ok, note=None):
-        P.oblige(name, 'geodesy.' + fn, tag, dict(result='discharged' if ok else 'sat', backend='call summaries over all actual arguments + term identity', ms=0), strict=True, note=note)
+    def ob(name, fn, tag, ok, note=None, soft=False):
+        # soft: the function no longer has the call structure the contract is written over (e.g. a helper inlined, one more branch) and no path
+        # raises: the contract cannot be stated over its summaries, which is undecided here -- the bounded layer judges the function natively
+        P.oblige(name, 'geodesy.' + fn, tag, dict(result='discharged' if ok else ('engine: call structure differs from the one the contract is written over' if soft else 'sat'),
+                                                  backend='call summaries over all actual arguments + term identity', ms=0), strict=True, note=note, soft=soft and not ok)
 
     # ---------------------------------------------------------------- rho, nu
     lat = real('lat')
@@ -49,7 +52,10 @@ def main():
             pth = E.explore(lambda: gd.vincinv_utm(z1, e1, n1, z2, e2, n2, hemi, ell))
         ok = len(pth) == 1 and pth[0]['kind'] == 'ret'
         if not ok:
-            ob('vincinv_utm.runs', 'vincinv_utm', hemi, False)
+            ob('vincinv_utm.runs', 'vincinv_utm', hemi, False, 'paths %r' % ([p['kind'] for p in pth],), soft=bool(pth) and all(p['kind'] == 'ret' for p in pth))
+            continue
+        if len(R['grid2geo'].calls) != 2 or len(R['vincinv'].calls) != 1 or len(R['line_sf'].calls) != 1:
+            ob('vincinv_utm.structure', 'vincinv_utm', hemi, False, 'calls: grid2geo %d, vincinv %d, line_sf %d' % (len(R['grid2geo'].calls), len(R['vincinv'].calls), len(R['line_sf'].calls)), soft=True)
             continue
         gdist, b12, b21, lsf = pth[0]['val']
         g1, g2 = R['grid2geo'].calls[0], R['grid2geo'].calls[1]
@@ -79,8 +85,14 @@ def main():
         if same:
             E2, N2 = e2.t, n2.t
             ok = len(calls) == 2 and not R['geo2grid'].calls
+            if not ok:
+                ob('line_sf.structure', 'line_sf', tag, False, 'calls: grid2geo %d, geo2grid %d' % (len(calls), len(R['geo2grid'].calls)), soft=True)
+                continue
             c_a, c_b = calls[0], calls[1]
         else:
+            if len(calls) != 3 or len(R['geo2grid'].calls) != 1:
+                ob('line_sf.structure', 'line_sf', tag, False, 'calls: grid2geo %d, geo2grid %d' % (len(calls), len(R['geo2grid'].calls)), soft=True)
+                continue
             rp = R['geo2grid'].calls[0]
             c0 = calls[0]
             ok = len(calls) == 3 and c0['key'] == '|hemisphere=north' and all(eq(u, v) for u, v in zip(c0['args'], [z3.RealVal(56), e2.t, n2.t] + EL + utm)) and \
@@ -127,7 +139,8 @@ def main():
             callsnap = {k: list(v.calls) for k, v in R.items()}
         kinds = sorted(p['kind'] for p in pth)
         if kinds != ['loopback', 'ret']:
-            ob('vincdir_utm.runs', 'vincdir_utm', hemi, False, 'paths %r' % ([(p['kind'], p['val'] if p['kind'] == 'raise' else '') for p in pth],))
+            ob('vincdir_utm.runs', 'vincdir_utm', hemi, False, 'paths %r' % ([(p['kind'], p['val'] if p['kind'] == 'raise' else '') for p in pth],),
+               soft=bool(pth) and all(p['kind'] in ('ret', 'loopback') for p in pth))
             continue
         LP = dict(E.LOOPS['vincdir_utm#while1'])
         key = '|hemisphere=' + hemi
@@ -146,6 +159,9 @@ def main():
         ls = callsnap['line_sf']
         # first call: the initial estimate from the plane radiation; last call: the loop body
         cand = [c for c in ls if len(c['args']) > 4 and eq(c['args'][4], gg[0]['outs'][0])]
+        if not cand:
+            ob('vincdir_utm.structure', 'vincdir_utm', hemi + ':loop body', False, 'no line_sf call on the newly projected point in the loop body (%d line_sf calls in all)' % len(ls), soft=True)
+            continue
         body = cand[0] if cand else ls[-1]
         okl = body['key'] == key and all(eq(u, v) for u, v in zip(body['args'], [z1.t, e1.t, n1.t, z1.t, gg[0]['outs'][0].t, gg[0]['outs'][1].t] + EL + utm))
         ob('vincdir_utm.lsf_step', 'vincdir_utm', hemi + ':loop body', okl and eq(LP['post']['lsf'], body['outs'][0]) and eq(LP['post']['lsf_diff'], z3.If(
